@@ -68,6 +68,10 @@ func (s *SequencerSyncer) resetSyncStatus(ctx context.Context, numReorgedBlocks 
 		}
 
 		deleteFromInclusive := syncStatus.BlockNumber - int64(numReorgedBlocks) + 1
+		// never go back beyond the block syncing started at: earlier blocks have not been synced
+		if deleteFromInclusive < int64(s.SyncStartBlockNumber) {
+			deleteFromInclusive = int64(s.SyncStartBlockNumber)
+		}
 
 		err = queries.DeleteTransactionSubmittedEventsFromBlockNumber(ctx, deleteFromInclusive)
 		if err != nil {
